@@ -19,6 +19,7 @@ class QuicPacketSpace:
     def __init__(self) -> None:
         self.ack_at: Optional[float] = None
         self.ack_queue = RangeSet()
+        self.ack_queue_start = 0
         self.discarded = False
         self.expected_packet_number = 0
         self.largest_received_packet = -1
